@@ -259,6 +259,7 @@ def run(ctx):
             ok = True
     ctx.ob("R11.6", "format_node:ignored-nodes-keep-text", ok, "a node with ignored formatting is emitted through get_text", fn.where())
     _rewriters(ctx, F)
+    _comma_symmetry(ctx, F, sst, kind_names)
     _controls(ctx, F, sst)
 
 
@@ -428,3 +429,108 @@ def _rewriters(ctx, F):
             ctx.ob("R11.7", key, False, "the routine selects / drops / duplicates / re-parses child nodes (%s) but %s: a comment attached to an affected "
                    "node is lost or duplicated" % (", ".join(selecting[:3]), "; ".join(why)), g.where())
     ctx.floor("routines rewriting a list of child nodes", n_rw, 2)
+
+
+# ------------------------------------------------------------------------------------------------
+# R11.8 a trailing comma is added on a broken line only where the written one is dropped
+
+def _kind_sets(fn, names, source_call):
+    """[(switch block, {kinds with an explicit arm}, {arm target: kinds})] for the switches on the SyntaxKind that
+    `source_call`(..) returned (directly, or as the payload of the Option it returned)."""
+    out = []
+    for bb, t in fn.switches():
+        si = fn.switch_info(bb)
+        if not si or si[0] != "disc" or not (si[2] or "").endswith("kind::SyntaxKind"):
+            continue
+        toks = prov(fn, place_local(si[1]), 8)
+        if ("c:" + source_call) not in toks:
+            continue
+        if source_call == "kind" and ("c:parent_kind" in toks):
+            continue
+        by = {}
+        for v, s_ in t[2]:
+            if isinstance(v, int) and v < len(names) and s_ != t[3]:
+                by.setdefault(s_, set()).add(names[v])
+        if by:
+            out.append((bb, set().union(*by.values()), by))
+    return out
+
+
+def _len_gt_tests(fn):
+    """[(switch block, constant c, true successor)] for tests `children.len() > c`."""
+    from .lib import operand_scalar
+    out = []
+    for bb, t in fn.switches():
+        si = fn.switch_info(bb)
+        if si and si[0] == "bin" and si[1] in ("Gt", "Lt", "Ge", "Le"):
+            a, b = si[2], si[3]
+            ta, tb = op_prov(fn, a, 8), op_prov(fn, b, 8)
+            ka, kb = operand_scalar(fn, a), operand_scalar(fn, b)
+            c = None
+            if "c:len" in ta and isinstance(kb, int) and si[1] in ("Gt", "Ge"):
+                c = kb + (1 if si[1] == "Ge" else 0) - (1 if si[1] == "Ge" else 0) if si[1] == "Gt" else kb - 1
+            elif "c:len" in tb and isinstance(ka, int) and si[1] in ("Lt", "Le"):
+                c = ka if si[1] == "Lt" else ka - 1
+            if c is not None:
+                ts = succ_for_value(fn, bb, 1)
+                out.append((bb, c, ts))
+    return out
+
+
+def _comma_symmetry(ctx, F, sst, names):
+    if not names:
+        ctx.ob("R11.8", "comma-symmetry", False, "SyntaxKind names are not available", "")
+        return
+    gw = [f for f in F.find("cairo_lang_formatter::node_properties::", name="get_wrapping_break_line_point_properties") if f.body and f.kind == "AssocFn"]
+    if len(gw) != 1:
+        raise AnchorError("get_wrapping_break_line_point_properties resolves to %d functions" % len(gw))
+    gw = gw[0]
+    ctx.analysed(gw)
+    # where the written trailing comma is dropped: the parent kinds tested in should_skip_terminal, and those of
+    # them for which the drop also needs more than c children
+    psets = sorted(_kind_sets(sst, names, "parent_kind"), key=lambda x: -len(x[1]))
+    skip_kinds = psets[0][1] if psets else set()
+    cond_kinds = psets[1][1] if len(psets) > 1 else set()
+    skip_c = sorted(set(c for _, c, _ in _len_gt_tests(sst)))
+    ctx.ob("R11.8", "skip-table", len(skip_kinds) >= 8, "the written trailing comma is dropped in lists of kind %s; for %s only with more than %s children" % (
+        sorted(skip_kinds), sorted(cond_kinds), skip_c), sst.where())
+    # where a comma is added when the line is broken
+    adders = [c for c in gw.calls() if c.name() == "set_comma_if_broken"]
+    ksets = _kind_sets(gw, names, "kind")
+    lens = _len_gt_tests(gw)
+    n = 0
+    seen = {}
+    for c in adders:
+        kinds, entry = set(), None
+        for bb, allk, by in ksets:
+            for s_, ks in by.items():
+                if gw.dominates(s_, c.bb):
+                    kinds |= ks
+                    entry = s_
+        if not kinds:
+            ctx.ob("R11.8", "adder@unknown-kind#%d" % (n + 1), False, "a trailing comma is added on a broken line under no recognisable list kind", c.where())
+            n += 1
+            continue
+        n += 1
+        key = "adder:" + "+".join(sorted(kinds))
+        seen[key] = seen.get(key, 0) + 1
+        if seen[key] > 1:
+            key += "#%d" % seen[key]
+        not_skipped = kinds - skip_kinds
+        msg_extra = ""
+        ok = not not_skipped
+        if not_skipped:
+            msg_extra = "; the written comma of %s is NOT dropped by should_skip_terminal: a broken line gets two commas" % sorted(not_skipped)
+        if ok and kinds & cond_kinds:
+            # the drop needs more than c children: so must the addition, on every path from the arm to the call
+            edges = [ts for _, cc, ts in lens if skip_c and cc == skip_c[0] and gw.dominates(entry, ts)]
+            ok = bool(edges) and gw.must_pass(entry, {c.bb}, set(edges)) and not any(e == c.bb and False for e in edges)
+            if ok:
+                # must_pass(entry -> call) through the true edge: no path reaches the call avoiding those blocks
+                reach = gw.reachable_blocks(entry, avoid=set(edges))
+                ok = c.bb not in reach or c.bb in edges
+            if not ok:
+                msg_extra = "; for %s the written comma is dropped only with more than %s children, but the comma is added on a path that does not pass that test: a list of %s children keeps its comma and gets a second one" % (
+                    sorted(kinds & cond_kinds), skip_c, skip_c[0] if skip_c else "?")
+        ctx.ob("R11.8", key, ok, "a trailing comma is added on a broken line of %s%s" % (sorted(kinds), msg_extra or ": the written one is dropped under the same condition"), c.where())
+    ctx.floor("break points that add a trailing comma", n, 8)
